@@ -48,12 +48,13 @@ hlim::Node_Rewire::RewireOperation rightShiftRewireOp(size_t width, size_t amoun
 		
 	switch (fill) {
 		case hlim::Node_Shift::fill::rotate:
-			rewireOp.ranges.push_back({
-				.subwidth = amount,
-				.source = hlim::Node_Rewire::OutputRange::INPUT,
-				.inputIdx = 0,
-				.inputOffset = 0
-			});
+			if (amount > 0)
+				rewireOp.ranges.push_back({
+					.subwidth = amount,
+					.source = hlim::Node_Rewire::OutputRange::INPUT,
+					.inputIdx = 0,
+					.inputOffset = 0
+				});
 		break;
 		case hlim::Node_Shift::fill::last:
 			for (size_t i = 0; i < amount; i++) {
@@ -93,12 +94,13 @@ hlim::Node_Rewire::RewireOperation leftShiftRewireOp(size_t width, size_t amount
 
 	switch (fill) {
 		case hlim::Node_Shift::fill::rotate:
-			rewireOp.ranges.push_back({
-				.subwidth = amount,
-				.source = hlim::Node_Rewire::OutputRange::INPUT,
-				.inputIdx = 0,
-				.inputOffset = width - amount
-			});
+			if (amount > 0) // an empty range would sit at offset width, one past the operand
+				rewireOp.ranges.push_back({
+					.subwidth = amount,
+					.source = hlim::Node_Rewire::OutputRange::INPUT,
+					.inputIdx = 0,
+					.inputOffset = width - amount
+				});
 		break;
 		case hlim::Node_Shift::fill::last:
 			for (size_t i = 0; i < amount; i++) {
